@@ -1,8 +1,9 @@
 // Command run is the correspondence harness: for one property it generates structured and malformed
 // inputs from a single PRNG state, executes the real gokrb5 code (built from /repo/v8's working tree),
 // projects the observables the property speaks about, evaluates the property's direct oracle, and writes
-//   <out>/<ID>.cases      one line per case: fn TAB input TAB observed   (compared with the Coq model)
-//   <out>/<ID>.meta.json  counts, histogram, samples, direct-oracle failures
+//
+//	<out>/<ID>.cases      one line per case: fn TAB input TAB observed   (compared with the Coq model)
+//	<out>/<ID>.meta.json  counts, histogram, samples, direct-oracle failures
 package main
 
 import (
@@ -16,57 +17,10 @@ import (
 	"sort"
 	"time"
 
-	"verif/harness/internal/jv"
+	"verif/harness/internal/hctx"
 )
 
-type OracleFail struct {
-	Oracle string      `json:"oracle"`
-	Sig    string      `json:"sig"` // stable signature used by the known-findings filter
-	Detail string      `json:"detail"`
-	Input  interface{} `json:"input"`
-}
-
-type Ctx struct {
-	Prop, Tier string
-	Seed       int64
-	R          *rand.Rand
-	w          *bufio.Writer
-	NCases     int
-	NOracle    int
-	Fails      []OracleFail
-	Hist       map[string]int
-	Samples    []string
-	distinct   map[string]struct{}
-	Notes      []string
-}
-
-func (c *Ctx) Case(fn string, in, obs jv.V) {
-	line := fn + "\t" + string(in) + "\t" + string(obs)
-	fmt.Fprintln(c.w, line)
-	c.NCases++
-	if _, ok := c.distinct[line]; !ok {
-		c.distinct[line] = struct{}{}
-	}
-	if len(c.Samples) < 6 && (c.NCases%97 == 1) {
-		s := line
-		if len(s) > 600 {
-			s = s[:600] + "..."
-		}
-		c.Samples = append(c.Samples, s)
-	}
-}
-
-func (c *Ctx) Count(key string) { c.Hist[key]++ }
-
-// Check records the verdict of a direct oracle (the property itself evaluated on one concrete case).
-func (c *Ctx) Check(ok bool, oracle, sig, detail string, input interface{}) {
-	c.NOracle++
-	if !ok && len(c.Fails) < 200 {
-		c.Fails = append(c.Fails, OracleFail{oracle, sig, detail, input})
-	}
-}
-
-func (c *Ctx) Quick() bool { return c.Tier != "thorough" }
+type Ctx = hctx.Ctx
 
 var props = map[string]func(*Ctx){}
 
@@ -87,10 +41,10 @@ func main() {
 		panic(err)
 	}
 	c := &Ctx{Prop: *prop, Tier: *tier, Seed: *seed, R: rand.New(rand.NewSource(*seed)),
-		w: bufio.NewWriterSize(cf, 1<<20), Hist: map[string]int{}, distinct: map[string]struct{}{}}
+		W: bufio.NewWriterSize(cf, 1<<20), Hist: map[string]int{}, Distinct: map[string]struct{}{}}
 	t0 := time.Now()
 	f(c)
-	c.w.Flush()
+	c.W.Flush()
 	cf.Close()
 	keys := make([]string, 0, len(c.Hist))
 	for k := range c.Hist {
@@ -99,7 +53,7 @@ func main() {
 	sort.Strings(keys)
 	meta := map[string]interface{}{
 		"property": *prop, "tier": *tier, "seed": *seed,
-		"cases": c.NCases, "distinct_cases": len(c.distinct), "oracle_checks": c.NOracle,
+		"cases": c.NCases, "distinct_cases": len(c.Distinct), "oracle_checks": c.NOracle,
 		"oracle_failures": c.Fails, "histogram": c.Hist, "samples": c.Samples, "notes": c.Notes,
 		"wall_s": time.Since(t0).Seconds(),
 	}
@@ -108,13 +62,4 @@ func main() {
 }
 
 // guard runs f and reports whether it panicked.
-func guard(f func()) (panicked bool, val interface{}) {
-	defer func() {
-		if r := recover(); r != nil {
-			panicked = true
-			val = r
-		}
-	}()
-	f()
-	return
-}
+func guard(f func()) (bool, interface{}) { return hctx.Guard(f) }
